@@ -20,9 +20,12 @@ from .. import core, wire, wirecheck as W, c11gen
 MODULE = 'Sbepp.Properties.C11'
 THEOREMS = [
     'Sbepp.Properties.C11.mutators_guarded',
+    'Sbepp.Properties.C11.conversions_guarded',
+    'Sbepp.Properties.C11.guard_definitions',
     'Sbepp.Properties.C11.table_guarded',
     'Sbepp.Properties.C11.writes_consistent',
     'Sbepp.Properties.C11.table_nonempty',
+    'Sbepp.Properties.C11.conversions_nonempty',
     'Sbepp.Properties.C11.conv_only_towards_const',
     'Sbepp.Properties.C11.conv_table',
     'Sbepp.Properties.C11.no_path_to_mutator',
@@ -42,6 +45,10 @@ def b2 : List Byte := [⟨.char, false⟩, ⟨.char, true⟩]
 #eval IO.println (";".intercalate (Mut.all.flatMap fun m => m.kinds.flatMap fun k => b2.flatMap fun vb => b2.map fun cb =>
   s!"en|{repr m}|{repr k}|{vb.const}|{cb.const}|{enabledAt guardRows guardFuel m ⟨k, vb, cb, .plain⟩}"))
 '''
+
+
+def sch(c):
+    return {'schema_xml': open(c.xml).read(), 'schema_sexp': c.sexp}
 
 
 def guards_extract(chk):
@@ -172,9 +179,18 @@ def run(chk):
         'observed': 'compiler acceptance/rejection of every generated mutator (detection idiom, negative '
                     'compilation), is_convertible matrices, buffer unchanged + no store on a read-only page during '
                     'read-only traversals'}
-    if (chk.failed_obligations or grep_.get('failed')) and not chk.violations:
+    from extract import guards
+    bad_rows = guards.failing_rows(grep_)
+    chk.cov['guard_table']['rows_failing_python_mirror'] = len(bad_rows)
+    if bad_rows and not chk.failed_obligations:
+        chk.report_unproved('the Python mirror of C11.table_guarded rejects rows that the Lean theorem accepts',
+                            {'rows': bad_rows[:10]})
+    if chk.failed_obligations or grep_.get('failed'):
+        # the property is no longer shown to hold; name the overloads of the table that break the theorem
         chk.report_unproved('theorem' if chk.failed_obligations else 'extraction',
-                            chk.failed_obligations or grep_.get('failed'))
+                            {'failed': chk.failed_obligations or grep_.get('failed'),
+                             'lake_errors': chk.extra.get('lake_errors'),
+                             'overloads_violating_table_guarded': bad_rows[:20]})
     chk.assumptions += [
         'SFINAE, template instantiation and overload resolution are the compiler\'s: the theorems are about the '
         'extracted guard table (regex/brace-matching scraper extract/guards.py, trusted) and the graph model; the '
@@ -200,10 +216,10 @@ def correspond(chk, run_, configs, conv_table, en_table, neg_cap, stats, by_kind
         chk.cov['evaluations'] += n
         for b in bad:
             if b.get('parse'):
-                chk.report_unproved('generated-header-scan', dict(b, schema_xml=open(c.xml).read()))
+                chk.report_unproved('generated-header-scan', dict(b, **sch(c)))
             else:
                 chk.report_failure({'kind': 'impl≠spec', 'what': 'a generated member function that writes lacks its guard',
-                                    'observed': b, 'schema_xml': open(c.xml).read(),
+                                    'observed': b, **sch(c),
                                     'case': {'what': 'generated-guard-missing', 'member_kind': ','.join(b['writes']),
                                              'guard': b['guard']}})
     chk.log('generated-header guard scan: %d writers' % stats['generated_writers_scanned'])
@@ -245,7 +261,7 @@ def correspond(chk, run_, configs, conv_table, en_table, neg_cap, stats, by_kind
             if not fails:
                 chk.report_unproved('static-probe-TU does not compile for a reason other than a probe',
                                     {'config': [cxx, std], 'first_error': c11gen.first_error(log),
-                                     'compiler_output': log[-3000:], 'schema_xml': open(c.xml).read()})
+                                     'compiler_output': log[-3000:], **sch(c)})
                 continue
             for pid_, labs in sorted(fails.items()):
                 p = probes.get(pid_)
@@ -261,14 +277,14 @@ def correspond(chk, run_, configs, conv_table, en_table, neg_cap, stats, by_kind
                     chk.report_failure({
                         'kind': 'impl≠spec', 'what': what, 'config': {'cxx': cxx, 'std': std},
                         'probe': p.text, 'failed_asserts': neg, 'class': where, 'member': p.member,
-                        'schema_xml': open(c.xml).read(),
+                        **sch(c),
                         'replay_hint': 'compile the probe with the generated header: %s -std=%s -fsyntax-only' % (cxx, std),
                         'case': {'what': what, 'probe_kind': p.kind, 'class_kind': ckind, 'member': p.member,
                                  'combo': neg[0], 'cxx': cxx, 'std': std}})
                 if pos:
                     chk.report_unproved('positive twin of a probe fails (the probe proves nothing)',
                                         {'config': [cxx, std], 'probe': p.text, 'failed_asserts': pos, 'class': where,
-                                         'member': p.member, 'schema_xml': open(c.xml).read()})
+                                         'member': p.member, **sch(c)})
     chk.cov['distinct_nontrivial'] += len(seen_static)
     chk.log('static probe TUs: %d, %d static_asserts' % (stats['static_tus'], stats['static_asserts']))
     # ---------------- (b) negative compilation
@@ -291,10 +307,21 @@ def correspond(chk, run_, configs, conv_table, en_table, neg_cap, stats, by_kind
         by_schema['case%d' % c.idx]['negative_pairs'] = len(sel)
         by_schema['case%d' % c.idx]['negative_candidates'] = len(tus)
 
+    pch_keys = sorted({(j[0].idx, j[5], j[6]) for j in njobs})
+    by_idx = {c.idx: c for c in cases}
+    with cf.ThreadPoolExecutor(core.NPROC) as ex:
+        pch = dict(zip(pch_keys, ex.map(lambda k: c11gen.build_pch(by_idx[k[0]], k[1], k[2]), pch_keys)))
+    stats['precompiled_headers'] = sum(1 for v in pch.values() if v)
+
     def compile_pair(job):
         c, cl, member, p, src, cxx, std = job
-        rc_c, log_c = c11gen.compile_only(c, p, cxx, std, ['C11_CONST'])
-        rc_m, log_m = c11gen.compile_only(c, p, cxx, std)
+        flags = pch.get((c.idx, cxx, std), [])
+        rc_c, log_c = c11gen.compile_only(c, p, cxx, std, ['C11_CONST'], flags)
+        rc_m, log_m = c11gen.compile_only(c, p, cxx, std, (), flags)
+        if flags and rc_m != 0:
+            # never let a precompiled-header problem decide a probe
+            rc_c, log_c = c11gen.compile_only(c, p, cxx, std, ['C11_CONST'])
+            rc_m, log_m = c11gen.compile_only(c, p, cxx, std)
         return job, rc_c, log_c, rc_m, log_m
     seen_neg = set()
     with cf.ThreadPoolExecutor(core.NPROC) as ex:
@@ -313,14 +340,14 @@ def correspond(chk, run_, configs, conv_table, en_table, neg_cap, stats, by_kind
             if rc_m != 0:
                 chk.report_unproved('positive twin of a negative-compilation probe does not compile',
                                     {'config': [cxx, std], 'class': cl.where, 'member': member, 'probe': src,
-                                     'first_error': c11gen.first_error(log_m), 'schema_xml': open(c.xml).read()})
+                                     'first_error': c11gen.first_error(log_m), **sch(c)})
                 continue
             if rc_c == 0:
                 chk.report_failure({
                     'kind': 'impl≠spec', 'what': 'const-view-offers-mutator', 'config': {'cxx': cxx, 'std': std},
                     'probe': src, 'defines': ['C11_CONST'], 'class': cl.where, 'member': member,
                     'observed': 'the translation unit compiles with a const byte type',
-                    'schema_xml': open(c.xml).read(),
+                    **sch(c),
                     'case': {'what': 'const-view-offers-mutator', 'probe_kind': 'negative-compile',
                              'class_kind': cl.kind, 'member': member, 'cxx': cxx, 'std': std}})
                 continue
@@ -334,8 +361,10 @@ def correspond(chk, run_, configs, conv_table, en_table, neg_cap, stats, by_kind
     chk.cov['distinct_nontrivial'] += len(seen_neg)
     chk.log('negative compilation pairs: %d' % stats['negative_pairs'])
     # ---------------- (d) run-time probe
-    rt_cfgs = configs if not thorough else configs
-    rjobs = [(c, cxx, std) for c in cases for (cxx, std) in rt_cfgs]
+    # thorough: three configurations per schema, rotating, so that every configuration runs on ~a third of the schemas
+    rt_of = {c.idx: (configs if not thorough else [configs[(c.idx * 3 + k) % len(configs)] for k in range(3)])
+             for c in cases}
+    rjobs = [(c, cxx, std) for c in cases for (cxx, std) in rt_of[c.idx]]
 
     def build(job):
         c, cxx, std = job
@@ -349,7 +378,7 @@ def correspond(chk, run_, configs, conv_table, en_table, neg_cap, stats, by_kind
                 chk.report_unproved('read-only traversal driver does not compile (a read-only call rejected on a const '
                                     'view, or a driver defect)',
                                     {'config': [cxx, std], 'first_error': c11gen.first_error(log),
-                                     'compiler_output': log[-3000:], 'schema_xml': open(c.xml).read()})
+                                     'compiler_output': log[-3000:], **sch(c)})
             else:
                 drivers[(c.idx, cxx, std)] = exe
     chk.log('read-only traversal drivers built: %d' % len(drivers))
@@ -372,7 +401,7 @@ def correspond(chk, run_, configs, conv_table, en_table, neg_cap, stats, by_kind
         if 'spec' not in mk or mk.get('conf') != 'true':
             chk.report_unproved('model-decode', {'answer': mo[:300]})
             continue
-        for (cxx, std) in rt_cfgs:
+        for (cxx, std) in rt_of[c.idx]:
             exe = drivers.get((c.idx, cxx, std))
             if exe:
                 per_driver.setdefault((exe, cxx, std), []).append((c, m, mk))
@@ -396,7 +425,7 @@ def correspond(chk, run_, configs, conv_table, en_table, neg_cap, stats, by_kind
             seen_rt.add((c.idx, m['name'], mk['image']))
             ik = W.kvs(io)
             line = 'ro %s %s' % (m['name'], mk['image'])
-            rep = {'config': {'cxx': cxx, 'std': std}, 'schema_xml': open(c.xml).read(), 'message': m['name'],
+            rep = {'config': {'cxx': cxx, 'std': std}, **sch(c), 'message': m['name'],
                    'driver_line': line, 'observed': io[:1500]}
             root = len(m['level']['leaves']) + len(m['level']['groups']) + len(m['level']['datas'])
             if ik.get('unchanged') != '1' or 'FAULT' in ik.get('ro', ''):
@@ -405,7 +434,8 @@ def correspond(chk, run_, configs, conv_table, en_table, neg_cap, stats, by_kind
                                               'ro': ik.get('ro'), 'cxx': cxx, 'std': std, 'root_members': root}))
                 continue
             sts = [ik.get('rast'), ik.get('curst'), ik.get('exst')] + ik.get('ro', '').split(',')
-            exp_cur = W.strip_sizes(mk['spec'])
+            # values only: sizes computed through a cursor are C04/C05 matter (known finding on member-less messages)
+            exp_cur = re.sub(r'(^|;)size=\d+$', '', W.strip_sizes(mk['spec']))
             cur = ik.get('cur', '')
             if any(s != 'ok' for s in sts) or ik.get('rosame') != '1':
                 # assertion / UB during a read-only traversal: not a C11 matter, but the probe did not complete
@@ -433,11 +463,13 @@ def correspond(chk, run_, configs, conv_table, en_table, neg_cap, stats, by_kind
 
 
 def replay(chk, rep):
-    """re-run the recorded probe against the current tree"""
-    from .. import sbeppc, schema as S  # noqa: F401
+    """re-run the recorded probe against the current tree: prints what the
+    specification demands and what the compilers / the generated code do now"""
+    from .. import sbeppc
     import shutil
     import tempfile
-    print(json.dumps({k: rep[k] for k in rep if k not in ('schema_xml', 'probe', 'compiler_output')}, indent=1)[:3000])
+    print(json.dumps({k: rep[k] for k in rep if k not in ('schema_xml', 'schema_sexp', 'probe', 'compiler_output')},
+                     indent=1)[:3000])
     if 'schema_xml' not in rep:
         print('no schema in the replay (theorem / extraction failure): run ./check C11')
         return 1
@@ -445,35 +477,64 @@ def replay(chk, rep):
     if exe is None:
         print(log[-2000:])
         return 1
+    cfg = rep.get('config', {'cxx': 'g++', 'std': 'c++17'})
+    if isinstance(cfg, list):
+        cfg = {'cxx': cfg[0], 'std': cfg[1]}
     d = tempfile.mkdtemp(dir=core.BUILD)
     try:
         xml = os.path.join(d, 'schema.xml')
         open(xml, 'w').write(rep['schema_xml'])
         rc, out = sbeppc.run(exe, xml, os.path.join(d, 'gen'))
         print('sbeppc rc=%s %s' % (rc, out[:300]))
-        cfg = rep.get('config', {'cxx': 'g++', 'std': 'c++17'})
+        pkg = re.search(r'package="(\w+)"', rep['schema_xml']).group(1)
 
         class C:
             dir = d
-        if rep.get('probe') and rep.get('case', {}).get('probe_kind') == 'negative-compile':
+            s = {'package': pkg}
+            layout = None
+        kind = rep.get('case', {}).get('probe_kind')
+        if rep.get('probe') and kind == 'negative-compile':
             p = os.path.join(d, 'probe.cpp')
             open(p, 'w').write(rep['probe'])
             rc_c, log_c = c11gen.compile_only(C, p, cfg['cxx'], cfg['std'], ['C11_CONST'])
             rc_m, log_m = c11gen.compile_only(C, p, cfg['cxx'], cfg['std'])
-            print('spec : const twin must not compile, mutable twin must compile')
-            print('impl : const twin rc=%s (%s); mutable twin rc=%s' % (rc_c, c11gen.first_error(log_c) if rc_c else 'compiles', rc_m))
+            print('spec : the const twin (-DC11_CONST) must not compile, the mutable twin must compile')
+            print('impl : const twin %s; mutable twin %s' % (
+                'rejected: ' + c11gen.first_error(log_c) if rc_c else 'COMPILES', 'compiles' if rc_m == 0 else 'REJECTED'))
             return 1 if (rc_c == 0 or rc_m != 0) else 0
+        model = chk.model_exe()
+        if model is None or 'schema_sexp' not in rep:
+            print('cannot rebuild the layout (model driver / schema_sexp missing)')
+            return 1
+        _, lay = core.sh([model], input='layout ' + rep['schema_sexp'] + '\n')
+        C.layout = json.loads(lay.splitlines()[0])
         if rep.get('driver_line'):
-            model = chk.model_exe()
-            rc2, lay = core.sh([model], input='layout ' + _sexp_of(rep) + '\n') if False else (1, '')
-            print('run-time probe: rebuild the driver with vlib/c11gen.runtime_driver and feed it driver_line')
-            return 1
-        if rep.get('probe'):
-            pkg = re.search(r'package="(\w+)"', rep['schema_xml']).group(1)
-            model = chk.model_exe()
-            print('static probe: regenerate the static TU (vlib/c11gen.static_tu) for this schema and compile it; '
-                  'probe text:\n' + rep['probe'])
-            return 1
+            drv, log = c11gen.build_runtime_driver(C, cfg['cxx'], cfg['std'])
+            if drv is None:
+                print('impl : the read-only traversal driver does not compile:\n' + log[-1500:])
+                return 1
+            _, o = core.sh([drv], input=rep['driver_line'] + '\n')
+            print('spec : unchanged=1 ro=ok,ok,ok (no store on the read-only mapping) ctl=FAULT')
+            k = W.kvs(o)
+            print('impl : ' + ' '.join('%s=%s' % (x, k.get(x)) for x in ('rast', 'curst', 'exst', 'unchanged', 'ro', 'rosame', 'ctl')))
+            return 0 if (k.get('unchanged') == '1' and k.get('ro') == 'ok,ok,ok') else 1
+        src, probes, _ = c11gen.static_tu(pkg, C.layout)
+        p = os.path.join(d, 'static.cpp')
+        open(p, 'w').write(src)
+        rc, log = c11gen.compile_only(C, p, cfg['cxx'], cfg['std'])
+        fails = c11gen.parse_static_failures(log)
+        bad = 0
+        for pid_, labs in sorted(fails.items()):
+            pr = probes.get(pid_)
+            if pr is None:
+                continue
+            if rep.get('member') in (None, pr.member):
+                print('impl : probe %d (%s %s.%s) fails: %s' % (pid_, pr.kind, pr.cls.where if pr.cls else 'cursor',
+                                                                pr.member, labs))
+                bad += 1
+        print('spec : every static_assert of the probe TU holds; impl: rc=%s, %d failing probes' % (rc, len(fails)))
+        if rc != 0 and not fails:
+            print(log[-1500:])
+        return 1 if (bad or rc != 0) else 0
     finally:
         shutil.rmtree(d, ignore_errors=True)
-    return 1
